@@ -27,6 +27,18 @@ claim("C15",
       "TLA+ state machine + TLC exhaustive model check + TLC-generated behaviours replayed into the code + TLC trace validation",
       "DESIGN.md section 4 C15")
 
+claim("C11",
+      "The live catalogue (all Transformation constants of geodepy.constants) is dumped as a TLA+ constant; TLC audits it "
+      "completely: every name against its labels, every forward/reverse pair for exact negation, every ordered ITRF triple "
+      "(A->B, B->C, A->C) at every date reference epoch of the catalogue against the published rounding, with the intended "
+      "Neg/Shift/Iers2Trans operators written in exact fixed-point arithmetic (Catalogue.tla). The algebra of the operators "
+      "is model-checked on the live data, and all words of length <= 2 (thorough: 3) over {Neg, Shift(e)} from every dated "
+      "set plus random IERS tuples are executed on the real objects and validated step by step by Trace_Catalogue.tla.",
+      "Trusted: TLC; BigFix arithmetic (self-tested at setup); alpha's tokenisation of constant names and exact decimal "
+      "encoding of floats. The catalogue is finite, so the audit is exhaustive; IERS tuples are sampled.",
+      "TLA+ specification over the dumped configuration, exhaustive TLC audit + TLC-generated words replayed into the code + TLC trace validation",
+      "DESIGN.md section 4 C11")
+
 NOT_YET = "check not built yet in this session (work in progress; see DESIGN.md section 8 for build order)"
 
 
